@@ -10,7 +10,7 @@ from .. import shimlab as S
 
 ID = "C04"
 LEVEL = "model_checking"
-RULE = ("trees {group of 2, group of 3 with a hard link, two groups, two --isolate roots with two files each} x target file f in {retained member, dropped member, second file of a retained / dropped isolate root} x "
+RULE = ("trees {group of 2, group of 3 with a hard link, two groups, two --isolate roots with two files each, the pair plus 100 filler groups with `-o /dev/full` (a report that cannot be written; whatever report reaches standard output instead is used)} x target file f in {retained member, dropped member, second file of a retained / dropped isolate root} x "
         "mutation in {rewrite same length, rewrite other length, append, truncate, delete, delete+recreate same bytes, "
         "delete+recreate other bytes, replace by directory, by dangling symlink, by symlink to a fresh file, by symlink to an old file of the same length, replace by a named pipe, touch} x "
         "position: the external mutator is interleaved at EVERY event k (file-system read calls and clock reads) of the "
@@ -38,6 +38,11 @@ TREE_OPTS = {
 }
 TREES["isolate"] = [{"p": "r1/a/f1", "k": "file", "c": ["base", 3000, 1]}, {"p": "r1/b/f2", "k": "file", "c": ["base", 3000, 1]},
                     {"p": "r2/c/f3", "k": "file", "c": ["base", 3000, 1]}, {"p": "r2/c/f4", "k": "file", "c": ["base", 3000, 1]}]
+# the pair again, with 100 further small groups so that the report is larger than any write buffer; `group -o /dev/full`
+# cannot write it - should a report then appear on standard output instead, it is used like any other report
+TREES["pair_big"] = TREES["pair"] + [
+    {"p": "r/fill/%s%03d_%d" % ("n" * 50, i, j), "k": "file", "c": ["lit", "filler %03d" % i]} for i in range(100) for j in (1, 2)]
+TREE_OPTS["pair_big"] = (["-o", "/dev/full"], ["r"], ["r/a/f1", "r/b/f2"])
 MUTATIONS = ["rewrite_same_len", "rewrite_other_len", "append", "truncate", "delete", "recreate_same", "recreate_other",
              "to_directory", "to_dangling_symlink", "to_symlink_fresh", "to_symlink_old", "to_fifo", "touch"]
 OPS = ["remove", "link", "softlink", "dedupe", "move"]
@@ -60,6 +65,8 @@ def cases(tier, seed):
     for t in TREES:
         for f in (TREE_OPTS[t][2] if t in TREE_OPTS else ("r/a/f1", "r/b/f2")):
             for m in MUTATIONS:
+                if t == "pair_big" and tier == "quick" and m not in ("rewrite_same_len", "recreate_other", "touch"):
+                    continue
                 out.append({"tree": t, "f": f, "mutation": m, "tier": tier})
     # the same question in time zones east and west of UTC (the report timestamp carries a UTC offset)
     for tz in ("JST-9", "PST8", "<+0530>-5:30"):
@@ -203,6 +210,11 @@ def evaluate(case):
                 res = S.run_with_shim(sc, args, [sc.tree], "rc", env_extra=tzenv)
                 mutate(f_abs, case["mutation"], sc)
             transitions += len(res["events"])
+            if case["tree"] == "pair_big":
+                # the report cannot be written to /dev/full: an error exit without a report is fine
+                if res["rc"] != 0 or not res["out"].strip():
+                    reached.append([case["tree"], case["f"], case["mutation"], kind, k, "no_report_on_stdout"])
+                    continue
             if res["rc"] != 0:
                 # group itself may legitimately fail? It must not: an unreadable entry affects only itself (C15)
                 viol.append({"kind": "group_failed", "mutation": case["mutation"], "phase": kind, "op": "group",
@@ -226,7 +238,7 @@ def evaluate(case):
                 sb = set(x["sha"] for x in before.values() if x["type"] == "file")
                 sa = set(x["sha"] for x in after.values() if x["type"] == "file")
                 feat = {"mutation": case["mutation"], "phase": phase, "op": op,
-                        "target_is_retained_member": case["f"].endswith("f1"), "isolate": case["tree"] in TREE_OPTS,
+                        "target_is_retained_member": case["f"].endswith("f1"), "isolate": case["tree"] == "isolate", "report_from_stdout_fallback": case["tree"] == "pair_big",
                         "timezone": case.get("tz", "UTC"), "dedupe_in_other_timezone": bool(case.get("tz_dedupe"))}
                 rc_case = dict(case, only=[[kind, k], op])
                 if "panicked" in r["err"] or r["timeout"]:
